@@ -251,7 +251,21 @@ pub fn arb_linear(rng: &mut Rng, header: Option<Header>, nrefs: usize) -> Index<
 
 /// `fixed_point`: loffset(child) <= loffset(parent) whenever the parent bin exists, i.e. already what the
 /// CSI writer would emit; otherwise free loffsets.
-pub fn arb_binned(rng: &mut Rng, min_shift: u8, depth: u8, header: Option<Header>, nrefs: usize, fixed_point: bool) -> Index<BinnedIndex> {
+/// Which bins of an arbitrary CSI index carry an loffset entry. `ReferenceSequence::new(bins, index, ..)` accepts
+/// any key set; an index assembled from bins only (no entries) or with entries for some bins is a legitimate
+/// in-memory value (`BinnedIndex::min_offset` walks up to the first bin *with an entry*, 0 if none). Entries for
+/// bins that do not exist are not generated (an loffset describes a bin).
+#[derive(Clone, Copy, Debug, PartialEq)]
+pub enum Entries {
+    All,
+    None,
+    Some,
+    OnlyAncestors,
+    OnlyLeaves,
+}
+
+pub fn arb_binned(rng: &mut Rng, min_shift: u8, depth: u8, header: Option<Header>, nrefs: usize, fixed_point: bool, entries: Entries) -> Index<BinnedIndex> {
+    let first_leaf = ((1usize << (3 * depth as usize)) - 1) / 7;
     let mut vg = VGen::new(rng);
     let refs = (0..nrefs)
         .map(|_| {
@@ -264,7 +278,16 @@ pub fn arb_binned(rng: &mut Rng, min_shift: u8, depth: u8, header: Option<Header
             for id in ids {
                 bins.insert(id, Bin::new(arb_chunks(rng, &mut vg)));
                 vg.next(rng);
-                ix.insert(id, vp(vg.v()));
+                let keep = match entries {
+                    Entries::All => true,
+                    Entries::None => false,
+                    Entries::Some => rng.bool(),
+                    Entries::OnlyAncestors => id < first_leaf,
+                    Entries::OnlyLeaves => id >= first_leaf,
+                };
+                if keep {
+                    ix.insert(id, vp(vg.v()));
+                }
             }
             ReferenceSequence::new(bins, ix, arb_metadata(rng))
         })
@@ -399,6 +422,8 @@ pub struct Cmp {
     pub hard: Vec<(String, String)>,
     /// probe queries answered differently
     pub answers: Vec<String>,
+    /// probe queries whose answer after the round trip no longer covers a chunk of the answer before
+    pub lost: Vec<String>,
     pub probes: u64,
     pub equal: bool,
     pub index_part_equal: bool,
@@ -475,6 +500,14 @@ where
             c.probes += 1;
             match (qa, qb) {
                 (Ok(Ok(x)), Ok(Ok(y))) => {
+                    // both lists are merged (sorted, non-abutting), so a chunk of the old answer is still covered iff one
+                    // chunk of the new answer contains it
+                    if let Some(k) = x.iter().find(|k| k.start() < k.end() && !y.iter().any(|m| m.start() <= k.start() && k.end() <= m.end())) {
+                        let f = |v: &Vec<Chunk>| v.iter().map(|k| (u64::from(k.start()), u64::from(k.end()))).collect::<Vec<_>>();
+                        if c.lost.len() < 4 {
+                            c.lost.push(format!("query(ref {r}, {iv}): chunk {:?} of the answer {:?} is not covered by the answer after the round trip {:?}", (u64::from(k.start()), u64::from(k.end())), f(&x), f(&y)));
+                        }
+                    }
                     if x != y && c.answers.len() < 6 {
                         let f = |v: &Vec<Chunk>| v.iter().map(|k| (u64::from(k.start()), u64::from(k.end()))).collect::<Vec<_>>();
                         c.answers.push(format!("query(ref {r}, {iv}): {:?} -> {:?}", f(&x), f(&y)));
@@ -524,8 +557,14 @@ fn csi_written_loffsets(ix: &BinnedIndex, bins: &IndexMap<usize, Bin>) -> Binned
     out
 }
 
-pub fn csi_loffset_diff_is_ancestor_minimum(a: &Index<BinnedIndex>, b: &Index<BinnedIndex>) -> bool {
-    a.reference_sequences().len() == b.reference_sequences().len() && a.reference_sequences().iter().zip(b.reference_sequences()).all(|(x, y)| &csi_written_loffsets(x.index(), x.bins()) == y.index())
+/// `Some(class)` iff the loffsets read back are exactly what the unchanged writer emits for `a`.
+pub fn csi_loffset_diff_is_ancestor_minimum(a: &Index<BinnedIndex>, b: &Index<BinnedIndex>) -> Option<&'static str> {
+    let modelled = a.reference_sequences().len() == b.reference_sequences().len() && a.reference_sequences().iter().zip(b.reference_sequences()).all(|(x, y)| &csi_written_loffsets(x.index(), x.bins()) == y.index());
+    if !modelled {
+        return None;
+    }
+    let all_bins_have_entries = a.reference_sequences().iter().all(|x| x.bins().keys().all(|k| x.index().contains_key(k)));
+    Some(if all_bins_have_entries { "loffset-rewritten-as-minimum-over-ancestor-chain" } else { "bin-without-loffset-entry-written-as-0-or-ancestor-minimum" })
 }
 
 // ---------------------------------------------------------------------------------------------------
@@ -644,8 +683,12 @@ pub struct Judged {
     pub equal: bool,
 }
 
+pub type Explain<'a, I> = Option<&'a dyn Fn(&Index<I>, &Index<I>) -> Option<&'static str>>;
+pub type Again<'a, I> = &'a dyn Fn(&Index<I>) -> Io<Index<I>>;
+
 /// `kind` = "bai" | "tabix" | "csi"; `src` = "indexer" | "arbitrary" | "fs-index".
-pub fn judge_binning<I>(kind: &str, src: &str, a: &Index<I>, back: Io<Index<I>>, rng: &mut Rng, o: &mut CaseOut, csi_explain: Option<&dyn Fn(&Index<I>, &Index<I>) -> bool>) -> Option<Judged>
+/// `again` writes+reads the index that was read back: the file form must be a fixed point (second round trip `==`).
+pub fn judge_binning<I>(kind: &str, src: &str, a: &Index<I>, back: Io<Index<I>>, rng: &mut Rng, o: &mut CaseOut, csi_explain: Explain<I>, again: Again<I>) -> Option<Judged>
 where
     I: csi::binning_index::index::reference_sequence::Index + PartialEq + std::fmt::Debug,
 {
@@ -668,6 +711,29 @@ where
             return None;
         }
     };
+    match again(&b) {
+        Io::Ok(b2) => {
+            if b2 != b {
+                let c2 = compare(&b, &b2, rng);
+                let class = if let Some(h) = c2.hard.first() {
+                    h.0.clone()
+                } else if !c2.lost.is_empty() {
+                    "answer-lost-chunks".to_string()
+                } else {
+                    csi_explain.and_then(|f| f(&b, &b2)).unwrap_or("offset-index-changed").to_string()
+                };
+                let what = c2.hard.first().map(|h| h.1.clone()).or_else(|| c2.lost.first().cloned()).or_else(|| c2.answers.iter().find(|s| !s.is_empty()).cloned()).unwrap_or_else(|| "offset index differs, all probe answers equal".into());
+                o.violation(
+                    format!("roundtrip:{kind}:second-round-trip-changes-index:{class}"),
+                    format!("{kind} index ({src}): write+read of the index that was read back gives a different index ({} of {} probe answers differ): {what}; original index: {}", c2.answers.len(), c2.probes, brief(a)),
+                );
+            } else {
+                o.count(&format!("second_roundtrips_equal[{kind}]"), 1);
+            }
+        }
+        Io::WriteErr(e) | Io::ReadErr(e) => o.violation(format!("roundtrip:{kind}:second-round-trip-failed"), format!("{kind} index ({src}) read back from noodles' own output cannot be written+read again: {e}")),
+        Io::Panic(sig, msg) => o.violation(format!("roundtrip:{kind}:panic:{sig}"), format!("second round trip: {msg}")),
+    }
     let c = compare(a, &b, rng);
     o.count(&format!("roundtrip_probe_queries[{kind}]"), c.probes);
     if c.equal {
@@ -682,8 +748,15 @@ where
     }
     if c.hard.is_empty() {
         // only the per-reference offset index (linear index / per-bin loffsets) differs
-        let explained = csi_explain.map(|f| f(a, &b)).unwrap_or(false);
-        if c.answers.is_empty() {
+        let explained_class = csi_explain.and_then(|f| f(a, &b));
+        let explained = explained_class.is_some();
+        if !c.lost.is_empty() {
+            // never tolerated, whatever the writer is modelled to do: ranges the original index returned are gone
+            o.violation(
+                format!("roundtrip:{kind}:query-answers-changed:answer-lost-chunks"),
+                format!("{kind} index ({src}) after write+read (bins, metadata, header, counts unchanged): {}; index: {}", c.lost[0], brief(a)),
+            );
+        } else if c.answers.is_empty() {
             o.count(&format!("roundtrips_unequal_but_all_probe_answers_equal[{kind}]"), 1);
             if !explained {
                 // equality is not required when all answers agree; keep the observation
@@ -692,8 +765,8 @@ where
         } else {
             let n = c.answers.len();
             let first = c.answers.iter().find(|s| !s.is_empty()).cloned().unwrap_or_default();
-            let class = if explained {
-                "loffset-rewritten-as-minimum-over-ancestor-chain"
+            let class = if let Some(cl) = explained_class {
+                cl
             } else if kind == "csi" {
                 "loffsets-changed"
             } else {
@@ -704,7 +777,7 @@ where
                 format!(
                     "{kind} index ({src}) answers {n} of {} probe queries differently after write+read (bins, metadata, header, counts unchanged; offset index {}): {first}; index: {}",
                     c.probes,
-                    if explained { "= per-bin minimum over the contiguous ancestor chain, as written by write_bins/first_record_start_position" } else { "changed" },
+                    if explained { "= per-bin minimum over the bin's own entry (0 if it has none) and its contiguous chain of ancestors with entries, as written by write_bins/first_record_start_position; every answer after the round trip covers the answer before" } else { "changed" },
                     brief(a)
                 ),
             );
